@@ -35,7 +35,8 @@ def spellings_for(i: int, seed: int, n_lenient: int, curly: bool = False) -> lis
 
 
 def shard_impl(ctx: Ctx, sh: int, per_shard: int, oracle: Callable, doc_kwargs: dict, n_lenient: int,
-               nontrivial: Callable | None = None, curly: bool = False, label_fn: Callable | None = None) -> Stats:
+               nontrivial: Callable | None = None, curly: bool = False, label_fn: Callable | None = None,
+               strategy=None) -> Stats:
     """Body of a property module's (module-level, hence picklable) shard function."""
     if True:
         st = Stats()
@@ -60,7 +61,7 @@ def shard_impl(ctx: Ctx, sh: int, per_shard: int, oracle: Callable, doc_kwargs: 
                 for sig, detail in fails:
                     st.fail(sig, {"doc": doc, "sp": sp}, detail)
 
-        drive(model.document(**doc_kwargs), one, ctx.shard_seed(sh, 11), per_shard)
+        drive(strategy if strategy is not None else model.document(**doc_kwargs), one, ctx.shard_seed(sh, 11), per_shard)
         return st
 
 
